@@ -24,7 +24,7 @@ structure DState where
   life : Life := {}
   rpc : Rpc := {}
   persist : PersistDrv := {}
-  poolbin : Pool := {}
+  poolbin : PoolBinDrv := {}
 
 def stepLine (st : DState) (line : String) : DState × String :=
   let toks := (line.trimAscii.toString.splitOn " ").filter (· ≠ "")
